@@ -63,7 +63,10 @@ Theorem C10_finalize_at_most_once_at_exit : forall h, NoDup (fin_ids (log (destr
 Proof. exact finalize_at_most_once_exit. Qed.
 Print Assumptions C10_finalize_at_most_once_at_exit.
 
-(* by normal exit (GC:destroy after any history, no assert fired) every finalizer registration
+(* [destroy] is the bounded sweep loop of GC:destroy (2edb035); the modelled finalizers register
+   nothing, so it stops after its first sweep.  Finalizers that allocate are outside the model:
+   that part of the repair is tied by the replayed exit witness only.
+   By normal exit (GC:destroy after any history, no assert fired) every finalizer registration
    [k] has been called exactly once, or was dropped exactly once by an explicit
    gc:unregister(ptr) of the program: never both, never neither.
    [lcnt (log g) k] = number of calls of finalizer k, [dcnt (dropped g) k] = number of times it
@@ -158,6 +161,7 @@ Print Assumptions C10_no_abort.
 
 (* the tie facts the proofs above rest on, re-proved from the scraped source on every run *)
 Theorem C10_repaired_code_facts :
-  FINALIZE_BIT <> ROOT_BIT /\ AUTO_LEAF_ON_REGISTER = false /\ SCAN_SIZE_TEST = true /\ RESIZE_BEFORE_STEP = true.
-Proof. exact (conj FINALIZE_not_ROOT (conj auto_leaf_off (conj scan_size_test_on resize_before_step))). Qed.
+  FINALIZE_BIT <> ROOT_BIT /\ AUTO_LEAF_ON_REGISTER = false /\ SCAN_SIZE_TEST = true /\ RESIZE_BEFORE_STEP = true /\
+  (2 <= DESTROY_SWEEPS)%nat.
+Proof. exact (conj FINALIZE_not_ROOT (conj auto_leaf_off (conj scan_size_test_on (conj resize_before_step destroy_resweeps)))). Qed.
 Print Assumptions C10_repaired_code_facts.
